@@ -133,6 +133,38 @@ def run_case(case):
         except (Exception, SystemExit) as exc:  # noqa
             out['calls'].append(classify(exc))
         return out
+    if case['monitor'] == 'dense-online-op':
+        # update() of a unary / fold / since / bounded-window online operation fed batch by batch
+        import importlib
+        inf = float('inf')
+        conv = lambda l: [[inf if t == 'inf' else t, inf if v == 'inf' else (-inf if v == '-inf' else v)] for t, v in l]
+        out['setup'] = {'status': 'ok', 'value': None}
+        try:
+            modname, cls = {'once': ('stl.dense_time.online.once_operation', 'OnceOperation'), 'hist': ('stl.dense_time.online.historically_operation', 'HistoricallyOperation'),
+                            'not': ('stl.dense_time.online.not_operation', 'NotOperation'), 'abs': ('arithmetic.dense_time.online.abs_operation', 'AbsOperation'),
+                            'neg': ('arithmetic.dense_time.online.negate_operation', 'NegateOperation'), 'sqrt': ('arithmetic.dense_time.online.sqrt_operation', 'SqrtOperation'),
+                            'since': ('stl.dense_time.online.since_operation', 'SinceOperation'), 'once_timed': ('stl.dense_time.online.once_timed_operation', 'OnceTimedOperation'),
+                            'hist_timed': ('stl.dense_time.online.historically_timed_operation', 'HistoricallyTimedOperation')}[case['op']]
+            klass = getattr(importlib.import_module('rtamt.semantics.' + modname), cls)
+            op = klass(case['a'], case['b']) if case['op'].endswith('_timed') else klass()
+            for b in case['batches']:
+                if case['op'] == 'since':
+                    r = op.update(conv(b[0]), conv(b[1]))
+                else:
+                    r = op.update(conv(b))
+                out['calls'].append({'status': 'ok', 'value': canon_val(r)})
+            if case['op'] in ('once', 'hist'):
+                fin = [op.prev]
+            elif case['op'] == 'since':
+                fin = [op.sample_left_buf, op.sample_right_buf, op.prev, op.last]
+            elif case['op'].endswith('_timed'):
+                fin = [[list(x) for x in op.prev], op.residual_start, bool(op.started)]
+            else:
+                fin = []
+            out['calls'].append({'status': 'ok', 'value': canon_val(fin)})
+        except Exception as exc:  # noqa
+            out['calls'].append(classify(exc))
+        return out
     if case['monitor'] in ('dense-online-merge', 'dense-online-binop'):
         # the online merge called directly, and the update() wrapper of a binary online operation fed batch by batch
         import rtamt.semantics.stl.dense_time.online.intersection as oi
